@@ -35,7 +35,7 @@ ANCHORS = ['convert:make_converter', 'convert:from_data', 'convert:convert', 'co
            'converters:DictConverter.collect_errors', 'converters:SequenceConverter.collect_errors',
            'converters:ConditionalConverter.collect_errors', 'classes:PaneConverter.collect_errors_struct',
            'classes:PaneConverter.collect_errors_tuple', 'converters:EnumConverter.__init__']
-MIN_COUNTERS = {'quick': {'boundary_calls': 20000, 'unsupported_checked': 100, 'outcome_converr': 5000}}
+MIN_COUNTERS = {'quick': {'boundary_calls': 20000, 'unsupported_checked': 100, 'outcome_converr': 5000, 'unprintable_value_cases': 60}}
 
 
 class TrapMapping(collections.abc.Mapping):
